@@ -14,6 +14,8 @@
 // op:          q via=<router|mw> m=<METHOD> dm=<0|1> tmpl=<enc> path=<enc> hdr=<none|one|two> tok=<enc> tok2=<enc>
 //                (via=router: the real mux; via=mw: one instance of queryTokenChecker built when the case starts)
 //                (dm=1: the walked route accepts this method)
+//              qr … k=<1|2> to=<enc> …   like q, but a reload to <to> lands right after the k-th read of the
+//                configured token inside the request (after the request if it reads fewer times); ext reads = <n>
 //              reload tok=<enc>   the configured token changes while the router keeps running (no obs)
 // ext:         secrets <status> = <n>          number of the secrets the response body contains
 //              ni = <0|1>                      (refusals with a configured token only) the same request against a
@@ -79,7 +81,32 @@ func stubUpstream() *httptest.Server {
 	}))
 }
 
+// armedConfig is the router's configuration: the repo's MockConfig, plus the possibility to let a
+// reload land in the middle of a request — right after the k-th read of QueryAuthToken.
+type armedConfig struct {
+	*config.MockConfig
+	armed bool
+	k     int
+	to    string
+	reads int
+}
+
+func (c *armedConfig) GetQueryAuthToken() string {
+	v := c.MockConfig.GetQueryAuthToken()
+	if c.armed {
+		c.reads++
+		if c.reads == c.k {
+			c.MockConfig.Mux.Lock()
+			c.MockConfig.QueryAuthToken = c.to
+			c.MockConfig.Mux.Unlock()
+			c.armed = false
+		}
+	}
+	return v
+}
+
 type world struct {
+	armedCfg *armedConfig
 	conf    *config.MockConfig
 	router  *route.Router
 	handler http.Handler
@@ -106,12 +133,13 @@ func getWorld() *world {
 			}}},
 			CfgMetadata: []config.ConfigMetadata{{Type: "config", ID: cfgIDMark, Hash: cfgHashTag, LoadedAt: "2026-01-01T00:00:00Z"}},
 		}
+		w.armedCfg = &armedConfig{MockConfig: w.conf}
 		up := &transmit.MockTransmission{}
 		up.Start()
 		peer := &transmit.MockTransmission{}
 		peer.Start()
 		w.router = &route.Router{
-			Config:               w.conf,
+			Config:               w.armedCfg,
 			Logger:               &logger.NullLogger{},
 			HTTPTransport:        &http.Transport{},
 			UpstreamTransmission: up,
@@ -413,7 +441,49 @@ func b01(b bool) int {
 	return 0
 }
 
+// interleaveCase: requests during which a reload lands (right after the k-th read of the token inside
+// the request).  These cases sit outside the exhaustive grid.
+func interleaveCase(r *kit.Rng) kit.Case {
+	class := []string{"ordinary", "outer-whitespace", "non-ascii", "long"}[r.Intn(4)]
+	cfg := configuredToken(r, class, false)
+	tos := []string{"", configuredToken(r, "ordinary", false), configuredToken(r, "whitespace-only", false)}
+	var ops []string
+	type target struct{ via, tmpl, path string }
+	var targets []target
+	for _, rt := range queryRoutes() {
+		targets = append(targets, target{"router", rt.tmpl, instantiate(rt.tmpl)[0]})
+	}
+	targets = append(targets, target{"mw", mwTmpl, "/query/kept-instance"})
+	for _, tg := range targets {
+		for _, to := range tos {
+			for k := 1; k <= 2; k++ {
+				other := randToken(r, 8)
+				reqs := []tokreq{{"none", "", ""}, {"one", "", ""}, {"one", " ", ""}, {"one", cfg, ""}, {"one", other, ""}, {"two", "", cfg}}
+				if to != "" {
+					reqs = append(reqs, tokreq{"one", to, ""})
+				}
+				for _, q := range reqs {
+					ops = append(ops, fmt.Sprintf("qr via=%s m=GET dm=1 k=%d to=%s tmpl=%s path=%s hdr=%s tok=%s tok2=%s", tg.via, k, kit.Enc(to), kit.Enc(tg.tmpl), kit.Enc(tg.path), q.hdr, kit.Enc(q.tok), kit.Enc(q.tok2)))
+					ops = append(ops, "reload tok="+kit.Enc(cfg))
+				}
+			}
+		}
+	}
+	enc := make([]string, len(secrets))
+	for i, s := range secrets {
+		enc[i] = kit.Enc(s)
+	}
+	return kit.Case{Header: fmt.Sprintf("cfgtok=%s secrets=%s cls=interleave cls2=mid-request", kit.Enc(cfg), strings.Join(enc, ",")), Ops: ops}
+}
+
+var caseIdx int
+
 func (comp) Gen(r *kit.Rng, maxLen int, tier string) kit.Case {
+	ci := caseIdx
+	caseIdx++
+	if ci%7 == 6 {
+		return interleaveCase(r) // every 7th case; the grid's round-robin (genIdx) is not advanced
+	}
 	idx := genIdx
 	genIdx++
 	class := cfgClasses[idx%len(cfgClasses)]
@@ -480,7 +550,8 @@ func (r *runner) Do(op []string) (string, bool) {
 		r.w.conf.Reload()
 		return "", false
 	}
-	if op[0] != "q" {
+	mid := op[0] == "qr" // a reload lands in the middle of this request
+	if op[0] != "q" && !mid {
 		return "bad-op", true
 	}
 	handler := r.w.handler
@@ -504,7 +575,23 @@ func (r *runner) Do(op []string) (string, bool) {
 		req.Header[types.QueryTokenHeader] = []string{kit.Dec(kit.KV(op, "tok")), kit.Dec(kit.KV(op, "tok2"))}
 	}
 	rec := httptest.NewRecorder()
-	handler.ServeHTTP(rec, req)
+	if mid {
+		ac := r.w.armedCfg
+		to := kit.Dec(kit.KV(op, "to"))
+		k := 1
+		if kit.KV(op, "k") == "2" {
+			k = 2
+		}
+		ac.armed, ac.k, ac.to, ac.reads = true, k, to, 0
+		handler.ServeHTTP(rec, req)
+		kit.Ext("reads = %d", ac.reads) // how often the request read the configured token
+		ac.armed = false
+		r.cfg = to
+		r.setToken(to) // if the request read the token fewer than k times the reload lands right after it
+		r.w.conf.Reload()
+	} else {
+		handler.ServeHTTP(rec, req)
+	}
 	body := rec.Body.String()
 	nsec := 0
 	for _, sec := range secrets {
@@ -515,7 +602,7 @@ func (r *runner) Do(op []string) (string, bool) {
 	kit.Ext("secrets %d = %d", rec.Code, nsec) // how many of the case's secrets the body contains (data responses do)
 	msg, status := route.VerifAuthErrAuthNeeded()
 	isErr := rec.Code == status && strings.HasPrefix(body, `{"source":"refinery","error":"`+msg)
-	if cfg := r.cfg; isErr && cfg != "" {
+	if cfg := r.cfg; isErr && cfg != "" && !mid {
 		// non-interference probe: the same request against a different (also non-matching) configured
 		// token must be answered with the very same response
 		alt := cfg + "~alt"
